@@ -11,6 +11,36 @@ sys.path.insert(0, HERE)
 
 # id -> (technique, level text, level note, design ref)
 CLAIMS = {
+    "C28": (
+        "pairing / typestate over the s-expression tree of hy-repr (try-finally protection of the printer call, write-ownership of the two globals)",
+        "Decides that hy-repr's quoting flag and cycle set are restored on every exit: the only call that runs arbitrary code after the state is modified is inside a try whose finally undoes both writes; the cycle test precedes the add; nested calls cannot claim the flag; no other function writes either global. This is the crash-point quantifier of the property decided over all exits at once; textual output equality is not decided.",
+        "The early cycle-placeholder return between the flag write and the try is accepted by an infeasibility argument recorded in DESIGN.md (an object already in _seen that is a model implies _quoting was already set).",
+        "4/C28",
+    ),
+    "C29": (
+        "pairing analysis (add/remove of ids in a finally protecting the recursive calls) + registry coverage and wrapper/model type table",
+        "Decides the structural parts of as-model: cycle guard is the first action; every function that marks an id un-marks it in a finally that protects every recursive promotion (so a failed promotion cannot poison later ones); every model-representable type has a wrapper; cycle-capable containers use a tracking wrapper; each wrapper builds the model class that corresponds to its type (idempotence precondition). Value equality after hy.eval is not decided.",
+        "Wrapper resolution follows the three idioms in models.py (constructor name, recwrap(X), lambda building X).",
+        "4/C29",
+    ),
+    "C38": (
+        "lock-discipline (ownership + region) analysis over the s-expression tree of util.hy, whole-repo reference search",
+        "Decides for all schedules at once that every access to the shared gensym counter lies in the region protected by the one module-level lock (acquire; try/finally release, or with), that the region advances the counter and copies it to a function-local from which the name is built, that no other module touches counter or lock, and that the name is the reserved `_hy_gensym_` template passed through hy.mangle with the `_hyx_` fix-up. Under that discipline distinctness needs no schedule enumeration.",
+        "threading.Lock is trusted to be a mutex; distinct manglings of distinct argument strings are value-level and not decided.",
+        "4/C38",
+    ),
+    "C39": (
+        "try/finally must-pass-through and def-use wiring in hy_eval_user / hy_eval",
+        "Decides for every raise point at once that the caller's `hy` entry is snapshotted (boxed, so falsy values survive) before the try, that hy_eval runs inside it, that the finally restores or pops on complementary arms with no control transfer and no success-only condition; and that hy_eval runs the statement module before returning the value of the expression, both from one hy_compile(get_expr=True) result and in the same namespaces.",
+        "Python's try/finally semantics; dictionary operations do not raise for ordinary dicts.",
+        "4/C39",
+    ),
+    "C40": (
+        "interprocedural path/guard analysis of REPL.runsource -> stdlib InteractiveInterpreter.runsource (parsed) -> REPL.runcode, exception-handler routing",
+        "Decides the history clause 'a failed input never makes two of *1 *2 *3 repeat one result' structurally: the shift is guarded by a flag cleared before delegation and set only after last_value is assigned in runcode's try body; the shift order; that PrematureEndOfInput is re-raised by HyCompile and becomes a continuation exactly when allow_incomplete; that both error display paths set *e and suppress printing. Printed output equality with a script is not decided.",
+        "The three cases of code.InteractiveInterpreter.runsource are re-derived from the interpreter's own code.py on every run (parsed, not executed).",
+        "4/C40",
+    ),
     "C13": (
         "hash-order taint dataflow (set-typed expressions and their uses) + entropy-source use check",
         "Every set-typed expression and every per-process entropy source (id/hash/time/random/...) in the modules on the compile path is enumerated and each use classified; a use that lets hash order or a per-process value reach emitted code is reported. Decides the structural necessary condition 'no hash-ordered iteration feeds the output', not byte equality of concrete outputs.",
